@@ -310,6 +310,13 @@ SHAPE_BODY = re.compile(
     r'(?P=z) \. and_then \( \| (?P<z2>%s) \| \{ '
     r'if (?P<cond>[^{}]*) \{ Some \( (?P=it) \. all \( \| (?P<c>%s) \| (?P<rest>[^{}]*) \) \) \} else \{ None \} '
     r'\} \) \. unwrap_or \( false \)$' % (IDENT, IDENT, IDENT, IDENT, IDENT))
+# the same control shape written as a `match` on the first character with a guard:
+#   let mut it = input.chars(); match it.next() { Some(z) if COND => { it.all(|c| REST) } _ => false , }
+SHAPE_BODY_MATCH = re.compile(
+    r'^let mut (?P<it>%s) = (?P<inp>%s) \. chars \( \) ; '
+    r'match (?P=it) \. next \( \) \{ '
+    r'Some \( (?P<z2>%s) \) if (?P<cond>[^{}]*?) => (?:\{ )?(?P=it) \. all \( \| (?P<c>%s) \| (?P<rest>[^{}]*?) \)(?: \})? ,? ?'
+    r'_ => false ,? ?\}$' % (IDENT, IDENT, IDENT, IDENT))
 CALLER_HEADER = re.compile(r'^\( (?P<n>%s) : & str \) -> bool$' % IDENT)
 CALLER_BODY = re.compile(r'^(?P<f>%s) \( (?P<n>%s) , (?P<p>%s) \)$' % (IDENT, IDENT, IDENT))
 
@@ -401,12 +408,18 @@ def main(repo, out):
         if not mh:
             raise Unknown('signature of `%s` not recognised' % ident_fn)
         mb = SHAPE_BODY.match(join(tokenize(body)))
+        zname = None
+        if mb:
+            zname = mb.group('z')
+        else:
+            mb = SHAPE_BODY_MATCH.match(join(tokenize(body)))
+            zname = '<match scrutinee>'
         if not mb:
             raise Unknown('body of `%s` does not have the recognised shape' % ident_fn)
         if mb.group('inp') != mh.group('inp'):
             raise Unknown('`%s` does not iterate over its input' % ident_fn)
         val = mh.group('val')
-        if len({val, mb.group('it'), mb.group('z'), mh.group('inp')}) != 4 or \
+        if len({val, mb.group('it'), zname, mh.group('inp')}) != 4 or \
                 val in (mb.group('z2'), mb.group('c')) or mb.group('it') in (mb.group('z2'), mb.group('c')):
             raise Unknown('`%s`: a binder shadows the validator or the iterator' % ident_fn)
         if val in preds:
